@@ -26,8 +26,9 @@ Progs == <<
   <<Let("n", IntL(2)), Emit(IfChain(Bin("==", Id("n"), IntL(1)), <<Text(<<"a">>)>>, <<[c |-> Bin("==", Id("n"), IntL(2)), b |-> <<Text(<<"b">>), Let("z", IntL(5)), Emit(Id("z"))>>]>>, <<Text(<<"c">>)>>, TRUE)), Text(<<"!">>)>>,
   \* 3 for with continue and break, a statement after the loop
   <<Emit(For("k", "v", Arr(<<IntL(1), IntL(2), IntL(3), IntL(4)>>), <<Code(If(Bin("==", Id("v"), IntL(2)), <<Code(Cnt)>>)), Code(If(Bin("==", Id("v"), IntL(4)), <<Code(Brk)>>)), Emit(Id("k")), Text(<<":">>), Emit(Id("v")), Text(<<",">>)>>)), Let("w", Str(<<"e","n","d">>)), Emit(Id("w"))>>,
-  \* 4 function definition and calls
-  <<Let("f", FnLit(<<"a", "b">>, <<Code(If(Id("a"), <<Ret(Id("b"))>>)), Ret(Str(<<"n","o">>))>>)), Emit(Call("f", <<Bool(TRUE), Str(<<"y","e","s">>)>>)), Text(<<"|">>), Emit(Call("f", <<Bool(FALSE), IntL(1)>>))>>,
+  \* 4 function definitions and calls (two function literals: they stand on one line in most layouts)
+  <<Let("f", FnLit(<<"a", "b">>, <<Code(If(Id("a"), <<Ret(Id("b"))>>)), Ret(Str(<<"n","o">>))>>)), Let("g", FnLit(<<"a">>, <<Ret(Bin("*", Id("a"), IntL(2)))>>)),
+    Emit(Call("f", <<Bool(TRUE), Str(<<"y","e","s">>)>>)), Text(<<"|">>), Emit(Call("f", <<Bool(FALSE), IntL(1)>>)), Text(<<"|">>), Emit(Call("g", <<IntL(4)>>))>>,
   \* 5 hash / array / index
   <<Let("h", Hash(<<"a", "b">>, <<IntL(1), Arr(<<IntL(7), IntL(8)>>)>>)), Emit(Idx(Id("h"), Str(<<"a">>))), Emit(Idx(Idx(Id("h"), Str(<<"b">>)), IntL(1))), Let("q", Arr(<<Str(<<"s">>), Bool(TRUE)>>)), Emit(Idx(Id("q"), IntL(0)))>>,
   \* 6 block helper, silent loop with a statement after its closing brace, nested if in for
@@ -61,7 +62,8 @@ Parts == [p |-> <<Text(<<"{">>), Emit(Id("d")), Text(<<"}">>)>>]
 
 \* ---- layouts
 \* cmt2: two line comments in a row (the second one on its own line); cmt3: an empty comment, CR LF ended, then an indented one
-SepAlts == {"sp", "tab", "nl", "crlf", "sp2", "cmt", "cmt2", "cmt3"}
+\* cmt4: a line comment whose text quotes template syntax, tag end included
+SepAlts == {"sp", "tab", "nl", "crlf", "sp2", "cmt", "cmt2", "cmt3", "cmt4"}
 GapAlts == {"none", "sp", "tab", "nl", "crlf", "cmt", "cmt2"}     \* white space inserted between two adjacent tokens
 Punct == {"(", ")", "[", "]", ",", ":", "LBR", "RBR", "{", "}"}
 EdgeAlts == SepAlts \cup {"none"}                      \* next to a tag delimiter the separator may vanish
@@ -72,6 +74,7 @@ JoinAlts == {"keep", "nl", "semi", "sp", "cmt"}
 Sep(a) == CASE a = "sp" -> <<" ">> [] a = "tab" -> <<"TAB">> [] a = "nl" -> <<"NL">> [] a = "crlf" -> <<"CR", "NL">> [] a = "sp2" -> <<" ", " ">>
             [] a = "cmt" -> <<" ", "HASH", " ", "n", "o", "t", "e", "NL">> [] a = "none" -> <<>>
             [] a = "cmt2" -> <<" ", "HASH", " ", "o", "n", "e", "NL", "HASH", "t", "w", "o", "NL">>
+            [] a = "cmt4" -> <<" ", "HASH", " ", "w", "a", "s", ":", " ", "<%=", " ", "q", " ", "%>", " ", "z", "NL">>
             [] a = "cmt3" -> <<" ", "HASH", "CR", "NL", " ", " ", "HASH", " ", "x", " ", "=", " ", "1", "NL">>
 Join(a) == CASE a = "nl" -> <<"NL">> [] a = "semi" -> <<";", " ">> [] a = "sp" -> <<" ">>
 CommentTag == <<"<%#", " ", "c", " ", "%>">>
